@@ -225,9 +225,11 @@ Lemma m_vm : forall m, (forall l, tm_vmw m = Some l -> Forall vmw_stable l) ->
   member "variableMatrixWidths" conv_vmws (collapse (tm_fields m)) =
   match norm_vmws (tm_vmw m) with Some l => CVal l | None => CNil end.
 Proof.
-  intros m H. look. destruct (tm_vmw m) as [[|x r]|] eqn:E; simpl; auto.
-  specialize (H _ eq_refl). unfold ovmws, conv_vmws.
-  rewrite (vmws_of_encode (x :: r) H). reflexivity.
+  intros m H. look. destruct (tm_vmw m) as [[|x r]|] eqn:E.
+  - reflexivity.
+  - specialize (H _ eq_refl). cbn [ovmws norm_vmws conv_vmws].
+    rewrite (vmws_of_encode (x :: r) H). reflexivity.
+  - reflexivity.
 Qed.
 
 Lemma tm_valid_norm : forall m, tm_valid (norm_tm m) = tm_valid m.
@@ -266,4 +268,191 @@ Proof.
   destruct NK as [NK1 NK2]. destruct NV as [NV1 NV2].
   cbn [is_panic is_hard is_soft andb orb]. rewrite !NH, NK1, NK2, NV1, NV2, NC. cbn [andb orb].
   rewrite E. rewrite tm_valid_norm, HV. reflexivity.
+Qed.
+
+(** ** The list of tile matrices *)
+From Coq Require Import Sorted.
+
+Definition key_lt (a b : Z * tileMatrix) : Prop := fst a < fst b.
+Definition ms_ok (l : list (Z * tileMatrix)) : Prop :=
+  StronglySorted key_lt l /\ Forall (fun e => parse_int (tm_id (snd e)) = Some (fst e)) l.
+
+Lemma id_key_of : forall k m, parse_int (tm_id m) = Some k -> id_key m = k.
+Proof. intros k m H. unfold id_key. rewrite H. reflexivity. Qed.
+
+Lemma sort_by_id_sorted : forall l, ms_ok l -> sort_by_id (map snd l) = map snd l.
+Proof.
+  induction l as [|[k m] r IH]; intros [HS HF]; [reflexivity|].
+  apply StronglySorted_inv in HS. destruct HS as [HSr HSk].
+  assert (HFk := Forall_inv HF). assert (HFr := Forall_inv_tail HF). cbn [fst snd] in HFk.
+  unfold sort_by_id in *. cbn [map snd fold_right]. rewrite (IH (conj HSr HFr)).
+  destruct r as [|[k' m'] r']; [reflexivity|]. cbn [map snd insert_by_id].
+  assert (HFk' := Forall_inv HFr). cbn [fst snd] in HFk'.
+  assert (HL := Forall_inv HSk). unfold key_lt in HL. cbn [fst] in HL.
+  rewrite (id_key_of k m HFk), (id_key_of k' m' HFk').
+  destruct (Z.ltb_spec k k'); [reflexivity|lia].
+Qed.
+
+Lemma insert_tm_last : forall k m acc, Forall (fun e => fst e < k) acc -> insert_tm k m acc = acc ++ [(k, m)].
+Proof.
+  intros k m acc H. induction acc as [|[k' m'] r IH]; simpl; auto.
+  inversion H; subst. cbn [fst] in H2.
+  destruct (Z.eqb_spec k k'); [lia|]. destruct (Z.ltb_spec k k'); [lia|]. rewrite IH by assumption. reflexivity.
+Qed.
+
+Definition norm_pair (e : Z * tileMatrix) : Z * tileMatrix := (fst e, norm_tm (snd e)).
+
+Lemma decodeTMs_encode : forall l acc,
+  ms_ok l -> Forall (fun e => tm_wf (snd e) /\ tm_stable (snd e)) l ->
+  (forall a e, In a acc -> In e l -> fst a < fst e) ->
+  decodeTMs (map encodeTM (map snd l)) acc = Ok (acc ++ map norm_pair l).
+Proof.
+  induction l as [|[k m] r IH]; intros acc [HS HF] HW HA.
+  - simpl. rewrite app_nil_r. reflexivity.
+  - apply StronglySorted_inv in HS. destruct HS as [HSr HSk].
+    assert (HFk := Forall_inv HF). assert (HFr := Forall_inv_tail HF). cbn [fst snd] in HFk.
+    assert (HWk := Forall_inv HW). assert (HWr := Forall_inv_tail HW). cbn [snd] in HWk. destruct HWk as [W S].
+    cbn [map snd decodeTMs]. unfold encodeTM at 1. rewrite (decodeTM_encode m W S). cbn [bind].
+    change (tm_id (norm_tm m)) with (tm_id m). rewrite HFk.
+    rewrite insert_tm_last.
+    2:{ apply Forall_forall. intros a Ha. apply (HA a (k, m)); [exact Ha|left; reflexivity]. }
+    rewrite IH.
+    + rewrite <- app_assoc. reflexivity.
+    + split; assumption.
+    + assumption.
+    + intros a e Ha He. apply in_app_or in Ha. destruct Ha as [Ha|[Ha|[]]].
+      * apply HA; [exact Ha|right; exact He].
+      * subst a. cbn [fst]. rewrite Forall_forall in HSk. apply (HSk e He).
+Qed.
+
+(** ** CRS *)
+Definition crs_wf (c : crs) : Prop :=
+  match c with
+  | CrsURI d u a => (exists r, parse_crs_uri u = Some r) /\ (a = true -> d = "")
+  | CrsWKT d w => projjson_ok w = true /\ canon_obj w = w /\ nums_finite (JObj w) = true
+  | CrsRef d r => canon_obj r = r /\ nums_finite (JObj r) = true
+  end.
+
+Ltac lookc :=
+  rewrite lookup_last_collapse by (vm_compute; reflexivity);
+  cbv [assoc crs_fields String.eqb Ascii.eqb Bool.eqb].
+
+Lemma crs_description_enc : forall d rest, nodupb ("description" :: map fst rest) = true ->
+  existsb (String.eqb "description") (map fst rest) = false ->
+  crs_description (collapse (("description", ostr d) :: rest)) = Some d.
+Proof.
+  intros d rest ND NE. unfold crs_description.
+  rewrite collapse_cons, lookup_last_app, (lookup_last_collapse_absent _ _ NE).
+  unfold ostr. destruct (String.eqb d "") eqn:E.
+  - apply String.eqb_eq in E. subst d. reflexivity.
+  - reflexivity.
+Qed.
+
+Theorem decodeCRS_encode : forall c, crs_wf c -> decodeCRS (encodeCRS c) = Ok c.
+Proof.
+  intros [d u a|d w|d r] H; simpl in H.
+  - destruct H as [[res HP] HA]. destruct a.
+    + rewrite (HA eq_refl). cbn [encodeCRS decodeCRS]. unfold decodeCrsURI. cbn [crs_description lookup_last String.eqb Ascii.eqb Bool.eqb].
+      rewrite HP. reflexivity.
+    + cbn [encodeCRS decodeCRS]. unfold decodeCrsURI. cbn [crs_fields].
+      rewrite crs_description_enc by reflexivity.
+      lookc. rewrite HP. reflexivity.
+  - destruct H as [HP [HC HN]]. cbn [encodeCRS decodeCRS]. unfold decodeCrsURI, decodeCrsWKT. cbn [crs_fields].
+    rewrite !crs_description_enc by reflexivity.
+    lookc. lookc. rewrite HP, HC. reflexivity.
+  - destruct H as [HC HN]. cbn [encodeCRS decodeCRS]. unfold decodeCrsURI, decodeCrsWKT, decodeCrsRef. cbn [crs_fields].
+    rewrite !crs_description_enc by reflexivity.
+    lookc. lookc. lookc. rewrite HC. reflexivity.
+Qed.
+
+(** ** Finiteness of the numbers of an encoding (the lexer reads every number of the document) *)
+Definition fin_opt (v : option json) : bool := match v with Some j => nums_finite j | None => true end.
+
+Lemma nums_finite_collapse : forall fs, nums_finite (JObj (collapse fs)) = forallb (fun kv => fin_opt (snd kv)) fs.
+Proof.
+  induction fs as [|[k v] r IH]; [reflexivity|].
+  rewrite collapse_cons. cbn [nums_finite forallb snd fin_opt] in *. rewrite forallb_app, IH.
+  destruct v; cbn [forallb snd andb]; [rewrite andb_true_r|]; reflexivity.
+Qed.
+
+Lemma nums_finite_jstrs : forall l, nums_finite (jstrs l) = true.
+Proof. intros l. unfold jstrs. cbn [nums_finite]. induction l; simpl; auto. Qed.
+
+Lemma fin_ostr : forall s, fin_opt (ostr s) = true.
+Proof. intros s. unfold ostr. destruct (String.eqb s ""); reflexivity. Qed.
+
+Lemma fin_ostrs : forall l, fin_opt (ostrs l) = true.
+Proof. intros [[|x r]|]; try reflexivity. cbn [ostrs fin_opt]. apply nums_finite_jstrs. Qed.
+
+Lemma finite_num : forall d, finite d -> nums_finite (JNum d) = true.
+Proof. intros d [q H]. cbn [nums_finite]. rewrite H. reflexivity. Qed.
+
+Lemma stable_num : forall n, uint_stable n -> nums_finite (jint n) = true.
+Proof.
+  intros n H. unfold uint_stable, conv_uint, jint in *. cbn [nums_finite].
+  destruct (f64_dec (Dec n 0)); [reflexivity|discriminate].
+Qed.
+
+Lemma fin_jpoint : forall p, finite (fst p) -> finite (snd p) -> nums_finite (jpoint p) = true.
+Proof. intros p [q1 H1] [q2 H2]. unfold jpoint. cbn [nums_finite forallb]. rewrite H1, H2. reflexivity. Qed.
+
+Lemma fin_vmws : forall l, (forall x, l = Some x -> Forall vmw_stable x) -> fin_opt (ovmws l) = true.
+Proof.
+  intros [[|v r]|] H; try reflexivity. specialize (H _ eq_refl). cbn [ovmws fin_opt nums_finite].
+  induction H as [|x xs [S1 [S2 S3]] _ IH]; [reflexivity|].
+  cbn [map forallb]. rewrite IH, andb_true_r. unfold encodeVmw. cbn [nums_finite forallb snd].
+  rewrite (stable_num _ S1), (stable_num _ S2), (stable_num _ S3). reflexivity.
+Qed.
+
+Lemma nums_finite_encodeTM : forall m, tm_wf m -> tm_stable m -> nums_finite (encodeTM m) = true.
+Proof.
+  intros m [HV [Fsd [Fcs [p [HO [F1 F2]]]]]] [S1 [S2 [S3 [S4 S5]]]].
+  unfold encodeTM. rewrite nums_finite_collapse. unfold tm_fields. cbn [forallb snd fin_opt].
+  rewrite !fin_ostr, fin_ostrs, (finite_num _ Fsd), (finite_num _ Fcs), HO, (fin_jpoint p F1 F2),
+          (stable_num _ S1), (stable_num _ S2), (stable_num _ S3), (stable_num _ S4), (fin_vmws _ S5).
+  reflexivity.
+Qed.
+
+Lemma nums_finite_encodeCRS : forall c, crs_wf c -> nums_finite (encodeCRS c) = true.
+Proof.
+  intros [d u a|d w|d r] H; cbn [crs_wf] in H.
+  - destruct a; [reflexivity|]. cbn [encodeCRS]. rewrite nums_finite_collapse. cbn [crs_fields forallb snd fin_opt].
+    rewrite fin_ostr. reflexivity.
+  - destruct H as [_ [_ HN]]. cbn [encodeCRS]. rewrite nums_finite_collapse. cbn [crs_fields forallb snd fin_opt].
+    rewrite fin_ostr, HN. reflexivity.
+  - destruct H as [_ HN]. cbn [encodeCRS]. rewrite nums_finite_collapse. cbn [crs_fields forallb snd fin_opt].
+    rewrite fin_ostr, HN. reflexivity.
+Qed.
+
+(** ** Bounding box *)
+Definition bbox_wf (b : bbox) : Prop :=
+  finite (fst (bb_lowerLeft b)) /\ finite (snd (bb_lowerLeft b)) /\
+  finite (fst (bb_upperRight b)) /\ finite (snd (bb_upperRight b)) /\
+  crs_wf (bb_crs b) /\
+  (forall l, bb_orderedAxes b = Some l -> length l = 2%nat).
+
+Lemma foldO_cons : forall {A S} (f : S -> A -> outcome S) x l s, foldO f (x :: l) s = bind (f s x) (fun s' => foldO f l s').
+Proof. reflexivity. Qed.
+
+Theorem decodeBBox_encode : forall b, bbox_wf b -> decodeBBox (encodeBBox b) = Ok (norm_bbox b).
+Proof.
+  intros [ll ur ax c] [F1 [F2 [F3 [F4 [HC HA]]]]]. cbn [bb_lowerLeft bb_upperRight bb_orderedAxes bb_crs] in *.
+  unfold encodeBBox, bbox_fields, decodeBBox. cbn [bb_lowerLeft bb_upperRight bb_orderedAxes bb_crs].
+  assert (NF := nums_finite_encodeCRS c HC). assert (DC := decodeCRS_encode c HC).
+  destruct ax as [[|x r]|].
+  - specialize (HA _ eq_refl). discriminate.
+  - specialize (HA _ eq_refl).
+    cbn [collapse flat_map snd fst app ostrs].
+    rewrite !foldO_cons.
+    cbn [bb_step String.eqb Ascii.eqb Bool.eqb]. rewrite (conv_point_jpoint ll F1 F2). cbn [bind ba_ll ba_ur ba_axes ba_crs].
+    cbn [bb_step String.eqb Ascii.eqb Bool.eqb]. rewrite (conv_point_jpoint ur F3 F4). cbn [bind ba_ll ba_ur ba_axes ba_crs].
+    cbn [bb_step String.eqb Ascii.eqb Bool.eqb]. unfold jstrs, conv_strs. rewrite strs_of_map. cbn [bind ba_ll ba_ur ba_axes ba_crs].
+    cbn [bb_step String.eqb Ascii.eqb Bool.eqb]. rewrite NF. cbn [foldO bind ba_ll ba_ur ba_axes ba_crs].
+    rewrite DC. cbn [bind]. rewrite HA. reflexivity.
+  - cbn [collapse flat_map snd fst app ostrs].
+    rewrite !foldO_cons.
+    cbn [bb_step String.eqb Ascii.eqb Bool.eqb]. rewrite (conv_point_jpoint ll F1 F2). cbn [bind ba_ll ba_ur ba_axes ba_crs].
+    cbn [bb_step String.eqb Ascii.eqb Bool.eqb]. rewrite (conv_point_jpoint ur F3 F4). cbn [bind ba_ll ba_ur ba_axes ba_crs].
+    cbn [bb_step String.eqb Ascii.eqb Bool.eqb]. rewrite NF. cbn [foldO bind ba_ll ba_ur ba_axes ba_crs].
+    rewrite DC. cbn [bind]. reflexivity.
 Qed.
